@@ -108,7 +108,8 @@ def _eligible(world, toks):
     except (LookupError, ValueError):
         return False
     meta = getattr(type(recv), "__spec_class__", None)
-    if meta is None or meta.frozen or meta.do_not_copy:
+    cd = world.table["classes"][world.cls_index[type(recv)]] if type(recv) in world.cls_index else None
+    if meta is None or (cd.get("frozen") if cd is not None else meta.frozen) or H.declared_class_dnc(type(recv)):
         return False
     return True
 
